@@ -394,7 +394,8 @@ def check_C13(ctx, thms=None):
             return '.'.join(toks_) or '-'
         rs = '|'.join('%d:%s' % (l, spell(a)) for (l, a) in rules)
         ins = '/'.join('.'.join(map(str, i + [0])) for i in inputs)
-        reqs.append('LR %d;%s;0;0;%d %s' % (N, rs, 1 if prefix else 0, ins))
+        # mode: 1 = prefix mode; +2 = the caller computes the FIRST sets of the grammar object before handing it over
+        reqs.append('LR %d;%s;0;0;%d %s' % (N, rs, (1 if prefix else 0) + (2 if r.random() < 0.3 else 0), ins))
     key = front.canon_plain(['first', 'nstates', 'conf', 'act', 'jump', 'parses'])
     a, b = front.compare_stage(ctx, 'LR', reqs, key, key, describe=lambda i: {'grammar': reqs[i].split(' ')[1], 'prefix_mode': cases[i][2]})
     for (N, rules, prefix, inputs, mt), x, q in zip(cases, a, reqs):
